@@ -28,6 +28,8 @@ impl<M: MovingAverageConstructor> MACD<M> {
 		r is Ok ==> self.ma1.seeded(src_val(candle, self.source), &r->Ok_0.ma1) && self.ma2.seeded(src_val(candle, self.source), &r->Ok_0.ma2),
 		r is Ok ==> self.signal.seeded(0real, &r->Ok_0.ma3),
 		r is Ok ==> r->Ok_0.cross1.up.last_delta@ == 0real && r->Ok_0.cross2.up.last_delta@ == 0real,
+		// C08: for averaging kinds that cannot overshoot this is the constant state for the candle's source price (see macd_const_step)
+		r is Ok && self.ma1.convex_kind() && self.ma2.convex_kind() && self.signal.convex_kind() ==> r->Ok_0.const_state(src_val(candle, self.source)),
 //@replace Ok(Self::Instance { ==> Ok(MACDInstance {
 //@end
 }
@@ -64,6 +66,25 @@ impl<M: MovingAverageConstructor> MACDInstance<M> {
 		assert(macd_step(old(self), *src, self, r.vals()[0], r.vals()[1], ema1, ema2, r.sigs()[0], r.sigs()[1], mk(0real)));
 	}
 //@end
+}
+
+// ---- C08 at indicator level: an instance in the state `init` leaves behind for a source price s (both averages hold only s, the signal average only 0,
+// both crossing detectors at 0), fed a candle with that source price again, returns MACD = 0, signal line = 0, no signals, and stays in that state.
+// Holds for averaging kinds that cannot overshoot (convex), i.e. 11 of the 15 kinds of the crate's own MA (unit ma_instance).
+impl<M: MovingAverageConstructor> MACDInstance<M> {
+	pub open spec fn const_state(&self, s: real) -> bool {
+		&&& self.inv() && self.ma1.convex() && self.ma2.convex() && self.ma3.convex()
+		&&& self.ma1.within(s, s) && self.ma2.within(s, s) && self.ma3.within(0real, 0real)
+		&&& self.cross1.up.last_delta@ == 0real && self.cross2.up.last_delta@ == 0real
+	}
+}
+pub proof fn macd_const_step<M: MovingAverageConstructor>(pre: &MACDInstance<M>, src: ValueType, post: &MACDInstance<M>, macd: ValueType, sig: ValueType, e1: ValueType, e2: ValueType, s1: Action, s2: Action, zero: ValueType)
+	requires pre.const_state(src@), post.inv(), macd_step(pre, src, post, macd, sig, e1, e2, s1, s2, zero)
+	ensures macd@ == 0real, sig@ == 0real, s1 is None, s2 is None, post.const_state(src@)
+{
+	<M::Instance as MovingAverage>::lemma_within_step(&pre.ma1, &src, &post.ma1, &e1, src@, src@);
+	<M::Instance as MovingAverage>::lemma_within_step(&pre.ma2, &src, &post.ma2, &e2, src@, src@);
+	<M::Instance as MovingAverage>::lemma_within_step(&pre.ma3, &macd, &post.ma3, &sig, 0real, 0real);
 }
 } // verus!
 fn main() {}
